@@ -130,8 +130,8 @@ def gen_stog(rng, P, variant="robust", decimal=False):
             break
     rects = [[F(r["cx"]) * P, F(r["cy"]) * P, F(r["w"]) * P, F(r["h"]) * P] for r in c["rects"]]
     if decimal:
-        rects = [[F(round(float(v) * 10)) / 10 * 1 for v in r] for r in rects]
-        rects = [[r[0] * P / P, r[1], max(r[2], F(1, 10)), max(r[3], F(1, 10))] for r in rects]
+        rects = [[F(round(float(v / P) * 10), 10) * P for v in r] for r in rects]
+        rects = [[r[0], r[1], max(r[2], P / 10), max(r[3], P / 10)] for r in rects]
     note = c["kind"]
     dmin = min(min(r[2], r[3]) for r in rects)
     if variant == "nonrobust":
@@ -176,11 +176,13 @@ def gen_alloc(rng, P, variant="robust"):
         r = c["rect"]
         cs.append([[F(r["cx"]) * P, F(r["cy"]) * P, F(r["w"]) * P, F(r["h"]) * P, r["fixed"], r["hard"],
                     r["region"]], [[m, F(q)] for m, q in c["alloc"]], c["depth"]])
-    x0 = min(c[0][0] - c[0][2] / 2 for c in cs)
-    x1 = max(c[0][0] + c[0][2] / 2 for c in cs)
-    y0 = min(c[0][1] - c[0][3] / 2 for c in cs)
-    y1 = max(c[0][1] + c[0][3] / 2 for c in cs)
-    bb = [x1 - x0, y1 - y0]
+    def bbox():
+        x0 = min(c[0][0] - c[0][2] / 2 for c in cs)
+        x1 = max(c[0][0] + c[0][2] / 2 for c in cs)
+        y0 = min(c[0][1] - c[0][3] / 2 for c in cs)
+        y1 = max(c[0][1] + c[0][3] / 2 for c in cs)
+        return [x1 - x0, y1 - y0]
+    bb = bbox()
     note = kind
     if variant == "nonrobust" and len(cs) >= 2:
         own = F(10) ** -12 * min(bb)
@@ -200,6 +202,7 @@ def gen_alloc(rng, P, variant="robust"):
         cs[i][0][axis] += sign * delta
         if cs[i][0][axis] - cs[i][0][2 + axis] / 2 < 0:
             cs[i][0][axis] += 2 * abs(delta)
+        bb = bbox()
     ok = all(exact(v) for c in cs for v in c[0][:4]) and all(
         exact(c[0][0] - c[0][2] / 2) and exact(c[0][0] + c[0][2] / 2) and exact(c[0][1] - c[0][3] / 2) and
         exact(c[0][1] + c[0][3] / 2) for c in cs)
@@ -308,7 +311,7 @@ def gen_simple_netlist(rng, P, decimal=False):
                 small += [w2, h2]
             mods[name] = {"hard": True, "rectangles": rs}
             if rng.random() < 0.3:
-                mods[name]["fixed"] = True
+                mods[name] = {"fixed": True, "rectangles": rs}
             small.append(F(math.sqrt(sum(r[2] * r[3] for r in rs))))
         else:
             mods[name] = {"terminal": True, "center": [fl(x0), fl(y0)]}
